@@ -173,3 +173,23 @@ Qed.
 Theorem binom_normal_approx_params : forall n p,
   binom_normal_approx n p = (binom_mean n p, binom_var n p).
 Proof. reflexivity. Qed.
+
+(* for 0 < p < 1 the support is exactly 0..n: Bounds() returns its end points *)
+Theorem binom_bounds_support : forall (n : nat) p ki, 0 < p -> p < 1 ->
+  (~ binom_pmf_i (Z.of_nat n) p ki == 0 <-> (0 <= ki <= Z.of_nat n)%Z).
+Proof.
+  intros n p ki Hp0 Hp1. split.
+  - intros H. destruct (Z.ltb_spec ki 0) as [L|L].
+    { exfalso. apply H. rewrite binom_pmf_i_neg by lia. reflexivity. }
+    destruct (Z.ltb_spec (Z.of_nat n) ki) as [L2|L2].
+    { exfalso. apply H. rewrite binom_pmf_i_above by lia. reflexivity. }
+    lia.
+  - intros Hk E. unfold binom_pmf_i in E.
+    destruct (Z.ltb_spec ki 0) as [L|L]; [lia|]. destruct (Z.ltb_spec (Z.of_nat n) ki) as [L2|L2]; [lia|].
+    simpl in E.
+    assert (P1 : 0 < inject_Z (choose (Z.of_nat n) ki)).
+    { change 0 with (inject_Z 0). rewrite <- Zlt_Qlt. apply choose_pos. lia. }
+    assert (P2 : 0 < qpow p (Z.to_nat ki)) by (apply qpow_pos; assumption).
+    assert (P3 : 0 < qpow (1 - p) (Z.to_nat (Z.of_nat n - ki))) by (apply qpow_pos; lra).
+    pose proof (Qmult_lt_0_compat _ _ (Qmult_lt_0_compat _ _ P1 P2) P3) as P. rewrite E in P. lra.
+Qed.
